@@ -132,8 +132,8 @@ def _cancel_await(ctx, fn: Fn, storage: str):
     direct = [n for n, c in fn.calls(f"{storage}.cancel")]
     awaited = [n for n in fn.cfg.nodes if n.kind == "stmt" and n.awaits and any(isinstance(x, ast.Await) and dotted(x.value) == storage for x in walk_no_nested(n.ast))]
     if direct and awaited:
-        tests = fn.tests(lambda e: dotted(e) == storage)
-        start = fn.branch(tests[0], "true").id if tests else fn.cfg.entry.id
+        tests = fn.presence(storage)
+        start = fn.branch(tests[0][0], tests[0][1]).id if tests else fn.cfg.entry.id
         return fn.cfg.all_paths_pass(start, [fn.cfg.exit.id], [n.id for n in direct], NONEXC) and fn.cfg.all_paths_pass(start, [fn.cfg.exit.id], [n.id for n in awaited], NONEXC | {"exc"})
     # container
     for lp in [n for n in ast.walk(src) if isinstance(n, ast.For)]:
